@@ -21,6 +21,7 @@ def native(script, args, root, timeout=600):
 
 _FALSIFY_CACHE = {}
 _RT_CACHE = {}
+FALSIFIABLE2 = {'C01', 'C02', 'C03', 'C04', 'C06', 'C07', 'C08', 'C09', 'C10', 'C11', 'C18', 'C19', 'C20'}
 
 
 def export_model_contracts(root):
@@ -60,7 +61,7 @@ FALSIFIABLE = {'C01', 'C02', 'C03', 'C04', 'C07', 'C08', 'C10', 'C11', 'C18', 'C
 
 def make_replay(pid, ob, root, repo, tier):
     fi = repo.func(ob.func)
-    rep = {'property': pid, 'obligation': ob.name, 'kind': ob.kind, 'function': ob.func,
+    rep = {'property': pid, 'obligation': ob.name, 'kind': ob.kind, 'function': ob.func, 'bundle': getattr(ob, 'bundle', None),
            'file': fi.file if fi else None, 'line': ob.line, 'tags': ob.tags,
            'solver': {k: v for k, v in ob.result.items() if k != 'model'},
            'counter_model': ob.result.get('model'),
@@ -98,18 +99,45 @@ def make_replay(pid, ob, root, repo, tier):
                 rep['native'] = dict(rep['native'], reproduced=True, how='bounded native falsification search found a concrete failing input',
                                      replay_cmd='PYTHONPATH=%s:%s /venv/bin/python %s %s' % (root, os.path.join(VERIF, 'native'), os.path.join(VERIF, script), pid),
                                      failing_input=out.strip().split('\n')[-1][:3000])
+    if not rep['native'].get('reproduced') and pid in FALSIFIABLE2:
+        # second generation: seeded random scenarios over the option space (native/falsify2.py), known-finding configurations excluded
+        script = 'native/falsify2.py'
+        key = ('f2', pid)
+        if key not in _FALSIFY_CACHE:
+            _FALSIFY_CACHE[key] = native(script, [pid, '400'], root, 1500)
+        code, out, err = _FALSIFY_CACHE[key]
+        rep['falsification_search_2'] = {'exit': code, 'output': out[-3000:], 'stderr': err[-300:]}
+        if code == 1:
+            rep['native'] = dict(rep['native'], reproduced=True, how='bounded native falsification search (random scenarios) found a concrete failing input',
+                                 replay_cmd='PYTHONPATH=%s:%s /venv/bin/python %s %s 400' % (root, os.path.join(VERIF, 'native'), os.path.join(VERIF, script), pid),
+                                 failing_input=out.strip().split('\n')[-1][:3000])
     return rep
 
 
 def replay_file(pid, path, root):
+    """./check <id> --replay <file>: re-runs the native replay steps recorded for the obligation of the replay file (R1 script of its bundle, run-time contract monitor,
+    falsification searches) on the tree `root` and exits 1 if a concrete failing input is (still) found"""
     rep = json.load(open(path))
-    print(json.dumps({k: rep[k] for k in ('property', 'obligation', 'function', 'line', 'solver')}, indent=1))
-    script = 'native/falsify.py'
-    if os.path.exists(os.path.join(VERIF, script)) and pid in FALSIFIABLE:
-        code, out, err = native(script, [pid], root, 900)
-        print(out[-3000:])
-        return 1 if code == 1 else 0
-    print('no native replay available for this obligation (abstract path); re-run ./check %s to regenerate the obligation' % pid)
+    print(json.dumps({k: rep.get(k) for k in ('property', 'obligation', 'function', 'line', 'solver')}, indent=1))
+
+    class O:
+        pass
+    ob = O()
+    ob.name = ob.base_name = rep['obligation']
+    for b in ('ledger', 'model', 'box', 'radii', 'table', 'jsonrt', 'inputs', 'paramcheck', 'passthru', 'vecs', 'owner', 'coord', 'dirlen', 'precond'):
+        if ob.name.endswith(' [%s]' % b):
+            ob.base_name = ob.name[:-len(' [%s]' % b)]
+    ob.kind, ob.func, ob.line, ob.tags = rep.get('kind'), rep.get('function'), rep.get('line', 0), rep.get('tags', [])
+    ob.bundle = rep.get('bundle')
+    ob.meta = {}
+    ob.result = dict(rep.get('solver') or {}, model=rep.get('counter_model'))
+    from .src import Repo
+    new = make_replay(pid, ob, root, Repo(root), 'quick')
+    print(json.dumps(new['native'], indent=1, default=str)[:4000])
+    if new['native'].get('reproduced'):
+        print('REPRODUCED on %s' % root)
+        return 1
+    print('not reproduced on %s (no concrete failing input found by the native replay steps)' % root)
     return 0
 
 
